@@ -1323,57 +1323,82 @@ static void run_shapes(Ctx& ctx) {
             if (!o.ok) ctx.fail("arange", fmt("arange(%d,%d,%d) wrong: %s", a, b, st, o.obs.substr(0, 200).c_str()), "start + k*step before stop", P().kv("cls", o.cls));
         }
     }
-    // long fractional arange with non-dyadic steps: element k = start + k*step (the mathematical value for the double
-    // arguments, evaluated in long double) within 8 eps * max(|start|, |k*step|, |result|): an element must not carry an
-    // error that grows with its index.  stop = start + count*step rounded to double, so (stop-start)/step is integral up
-    // to rounding; where the library's count differs from `count` by one the case is ambiguous and only counted.
+    // fractional arange with non-dyadic (decimal) steps.  stop = start + count*step evaluated in long double and rounded to
+    // double.  The statement's "count (stop-start)/step is integral" is decided from the DOUBLE arguments in long double:
+    // if the quotient is within 1e-9 of an integer k the range has exactly k elements and does not contain stop (a count
+    // one off is a violation); otherwise the rounding is ambiguous, a count of floor or ceil of the quotient is accepted
+    // and only noted.  Element i = start + i*step (long double from the double arguments) within
+    // 8 eps * max(|start|, |i*step|, |result|): an element must not carry an error that grows with its index.
     {
-        const double steps[6] = {0.1, 0.01, 0.6, 1.0 / 3, -0.7, 1e-3}, starts[4] = {0, -5, 2.5, 1e6};
-        std::vector<int> counts = {100, 1000, 10000, 100000};
-        if (g_thorough) counts.push_back(1000000);
-        for (double st : starts)
-            for (double sp : steps)
-                for (int cnt : counts) {
-                    if (!ctx.take("shape.arange.long", P().kv("start", st).kv("step", sp).kv("count", cnt))) continue;
-                    ctx.nontrivial();
-                    const double stop = (double)((ld)st + (ld)cnt * (ld)sp);
-                    std::vector<arr_real> rs;
-                    std::vector<const char*> names;
-                    try {
-                        rs.push_back(d::arange(st, stop, sp));
-                        names.push_back("double,double,double");
-                        if (st == std::floor(st) && std::fabs(st) < 100) {
-                            rs.push_back(d::arange((int)st, stop, sp));
-                            names.push_back("int,double,double");
-                        }
-                    } catch (const std::exception& e) {
-                        ctx.fail("arange", fmt("arange(%.17g,%.17g,%.17g) throws %s", st, stop, sp, e.what()), fmt("%d elements", cnt));
+        auto arange_case = [&](const char* check, double st, double sp, int cnt) {
+            if (!ctx.take(check, P().kv("start", st).kv("step", sp).kv("count", cnt))) return;
+            if (cnt >= 2) ctx.nontrivial();
+            const double stop = (double)((ld)st + (ld)cnt * (ld)sp);
+            const ld q = ((ld)stop - (ld)st) / (ld)sp;
+            const bool integral = fabsl(q - roundl(q)) <= 1e-9L;
+            const int k_int = (int)roundl(q);
+            std::vector<arr_real> rs;
+            std::vector<const char*> names;
+            try {
+                rs.push_back(d::arange(st, stop, sp));
+                names.push_back("double,double,double");
+                if (st == std::floor(st) && std::fabs(st) < 100) {
+                    rs.push_back(d::arange((int)st, stop, sp));
+                    names.push_back("int,double,double");
+                }
+            } catch (const std::exception& e) {
+                ctx.fail("arange", fmt("arange(%.17g,%.17g,%.17g) throws %s", st, stop, sp, e.what()), fmt("%d elements", cnt));
+                return;
+            }
+            for (size_t k = 0; k < rs.size(); ++k) {
+                const arr_real& r = rs[k];
+                if (integral) {
+                    ctx.note(std::string(check) + ": quotient integral within 1e-9, count judged");
+                    if (r.size() != k_int) {
+                        ctx.fail("arange", fmt("arange<%s>(%.17g,%.17g,%.17g) has %d elements (last %.17g)", names[k], st, stop, sp, r.size(), r.size() ? r[r.size() - 1] : 0.0),
+                                 fmt("%d elements ((stop-start)/step = %.12Lg), stop not included", k_int, q), P().kv("what", "count").kv("overload", names[k]).kv("got", r.size()).kv("want", k_int));
                         continue;
                     }
-                    for (size_t k = 0; k < rs.size(); ++k) {
-                        const arr_real& r = rs[k];
-                        if (r.size() != cnt) {
-                            if (std::abs(r.size() - cnt) == 1) ctx.note("arange.long: library count differs by one from the nominal count (ambiguous rounding, case not judged)");
-                            else ctx.fail("arange", fmt("arange<%s>(%.17g,%.17g,%.17g) has %d elements", names[k], st, stop, sp, r.size()), fmt("%d", cnt), P().kv("what", "count").kv("overload", names[k]));
-                            continue;
-                        }
-                        ctx.note("arange.long: count as nominal, elements judged");
-                        for (int i = 0; i < cnt; ++i) {
-                            const ld ref = (ld)st + (ld)i * (ld)sp;
-                            const double scale = std::max(std::max(std::fabs(st), std::fabs(i * sp)), std::fabs((double)ref));
-                            const double u = scale > 0 ? (double)(fabsl((ld)r[i] - ref) / (EPS * scale)) : (r[i] == 0 ? 0.0 : INFINITY);
-                            ctx.worst("arange(long, fractional) err/(eps*max(|start|,|k*step|,|result|))", std::isfinite(u) ? u : 1e300);
-                            if (!(u <= CTOL)) {
-                                ctx.fail("arange", fmt("arange<%s>(%.17g,%.17g,%.17g)[%d]=%.17g (%.1f rounding units)", names[k], st, stop, sp, i, r[i], u), fmt("%.20Lg", ref),
-                                         P().kv("what", "element").kv("i", i).kv("overload", names[k]));
-                                break;
-                            }
-                        }
-                        // the last element lies strictly before stop
-                        if (cnt > 0 && !(sp > 0 ? r[cnt - 1] < stop : r[cnt - 1] > stop))
-                            ctx.fail("arange", fmt("last element %.17g not before stop %.17g", r[cnt - 1], stop), "strictly before stop", P().kv("what", "last").kv("overload", names[k]));
+                } else {
+                    ctx.note(std::string(check) + ": quotient not integral within 1e-9 (ambiguous rounding), count floor or ceil accepted");
+                    if (r.size() != (int)floorl(q) && r.size() != (int)ceill(q)) {
+                        ctx.fail("arange", fmt("arange<%s>(%.17g,%.17g,%.17g) has %d elements", names[k], st, stop, sp, r.size()), fmt("%d or %d", (int)floorl(q), (int)ceill(q)), P().kv("what", "count").kv("overload", names[k]));
+                        continue;
                     }
                 }
+                const int m = r.size();
+                for (int i = 0; i < m; ++i) {
+                    const ld ref = (ld)st + (ld)i * (ld)sp;
+                    const double scale = std::max(std::max(std::fabs(st), std::fabs(i * sp)), std::fabs((double)ref));
+                    const double u = scale > 0 ? (double)(fabsl((ld)r[i] - ref) / (EPS * scale)) : (r[i] == 0 ? 0.0 : INFINITY);
+                    ctx.worst("arange(fractional, decimal steps) err/(eps*max(|start|,|k*step|,|result|))", std::isfinite(u) ? u : 1e300);
+                    if (!(u <= CTOL)) {
+                        ctx.fail("arange", fmt("arange<%s>(%.17g,%.17g,%.17g)[%d]=%.17g (%.1f rounding units)", names[k], st, stop, sp, i, r[i], u), fmt("%.20Lg", ref),
+                                 P().kv("what", "element").kv("i", i).kv("overload", names[k]));
+                        break;
+                    }
+                }
+                // the range does not contain stop: the last element lies strictly before it
+                if (integral && m > 0 && !(sp > 0 ? r[m - 1] < stop : r[m - 1] > stop))
+                    ctx.fail("arange", fmt("last element %.17g not before stop %.17g", r[m - 1], stop), "strictly before stop", P().kv("what", "last").kv("overload", names[k]));
+            }
+        };
+        // long ranges
+        {
+            const double steps[6] = {0.1, 0.01, 0.6, 1.0 / 3, -0.7, 1e-3}, starts[4] = {0, -5, 2.5, 1e6};
+            std::vector<int> counts = {100, 1000, 10000, 100000};
+            if (g_thorough) counts.push_back(1000000);
+            for (double st : starts)
+                for (double sp : steps)
+                    for (int cnt : counts) arange_case("shape.arange.long", st, sp, cnt);
+        }
+        // decimal grid: every count 1..200 (thorough 1..2000)
+        {
+            const double steps[7] = {0.1, 0.01, 0.3, 0.7, 1e-3, -0.1, -0.3}, starts[4] = {0, 1, -5, 2.5};
+            for (double st : starts)
+                for (double sp : steps)
+                    for (int cnt = 1; cnt <= B(200, 2000); ++cnt) arange_case("shape.arange.decimal", st, sp, cnt);
+        }
     }
 }
 
